@@ -32,10 +32,10 @@ func registerSym(e *Engine) {
 		}
 		pre := path + "."
 		e.reg(pre+"Bool", func(fr *frame, args []value) value {
-			return fr.p.newInput(strArg(args[0]), SBool, nil, nil)
+			return simp(fr.p.newInput(strArg(args[0]), SBool, nil, nil))
 		})
 		e.reg(pre+"Fault", func(fr *frame, args []value) value {
-			return fr.p.newInput("fault:"+strArg(args[0]), SBool, nil, nil)
+			return simp(fr.p.newInput("fault:"+strArg(args[0]), SBool, nil, nil))
 		})
 		e.reg(pre+"Str", func(fr *frame, args []value) value {
 			t := fr.p.newInput(strArg(args[0]), SStr, nil, nil)
